@@ -136,7 +136,7 @@ func genPubConfig(r *rng) (string, pubCtx) {
 
 var pubBadTimes = []string{"yesterday", "1700000000", "2023-13-01T00:00:00Z", "2023-11-14 22:13:20", "2023-11-14T22:13:20"}
 
-func genPubItem(r *rng, ctx pubCtx, id string, now int64, invalid int) pubItem {
+func genPubItem(r *rng, ctx pubCtx, id string, now int64, invalid int, force *pubRoute) pubItem {
 	rt := pick(r, ctx.Routes)
 	var good, closed, managedRoutes []pubRoute
 	for _, c := range ctx.Routes {
@@ -156,6 +156,9 @@ func genPubItem(r *rng, ctx pubCtx, id string, now int64, invalid int) pubItem {
 		rt = pick(r, managedRoutes)
 	case len(good) > 0 && !r.chance(4):
 		rt = pick(r, good)
+	}
+	if force != nil {
+		rt = *force
 	}
 	it := pubItem{ID: id, Route: rt.Path, RecvOK: true, NextOK: true, Headers: [][2]string{}}
 	if r.chance(8) {
@@ -530,7 +533,7 @@ func cmdPublish(args []string) error {
 				return err
 			}
 			n := pick(r, []int{1, 1, 2, 2, 3, 4, 6, 10})
-			scoped := r.chance(15)
+			scoped := r.chance(22)
 			if bigLeft > 0 && q == 0 && !scoped && c%5 == 0 {
 				bigLeft--
 				n = pick(r, []int{999, 1000, 1001})
@@ -549,12 +552,23 @@ func cmdPublish(args []string) error {
 			var items []pubItem
 			var managed *pubRoute
 			if scoped {
+				var open, any []*pubRoute
 				for i := range ctx.Routes {
-					if ctx.Routes[i].Managed {
-						managed = &ctx.Routes[i]
+					c := &ctx.Routes[i]
+					if !c.Managed {
+						continue
+					}
+					any = append(any, c)
+					if c.PublishEnabled && c.ManagedEnabled && !(c.Mode == "pull" && !ctx.AllowPull) && !(c.Mode == "deliver" && !ctx.AllowDeliver) {
+						open = append(open, c)
 					}
 				}
-				if managed == nil {
+				switch {
+				case len(open) > 0 && !r.chance(15):
+					managed = pick(r, open)
+				case len(any) > 0:
+					managed = pick(r, any)
+				default:
 					scoped = false
 				}
 			}
@@ -562,7 +576,11 @@ func cmdPublish(args []string) error {
 				idN++
 				id := fmt.Sprintf("m%d", idN)
 				kind := bad[i]
-				it := genPubItem(r, ctx, id, clock.now, kind)
+				var force *pubRoute
+				if scoped {
+					force = managed
+				}
+				it := genPubItem(r, ctx, id, clock.now, kind, force)
 				switch kind {
 				case 15: // id already in the queue
 					if len(before) > 0 {
@@ -576,12 +594,9 @@ func cmdPublish(args []string) error {
 				if scoped {
 					// endpoint-scoped path: the route comes from the URL; items may repeat it or leave it out
 					if kind != 2 && kind != 3 {
-						it.Route = pick(r, []string{"", managed.Path})
-					}
-					if kind != 4 {
-						it.Target = ""
-						if len(managed.Targets) > 1 {
-							it.Target = managed.Targets[0]
+						it.Route = ""
+						if r.chance(5) {
+							it.Route = managed.Path // a selector hint: not allowed on this path
 						}
 					}
 					if kind != 11 && kind != 12 && kind != 13 {
